@@ -117,7 +117,7 @@ void vf_harness(void) { XmlState* s; char c; vf_step(s, c); VF_CANARY(); }
 # the WHOLE body of XmlCodec::escape(const String& s), run on one- and two-character strings
 ESC_BODY = lambda: Cut('esc', XM, r'^void XmlCodec::escape\(const String& s\)\s*$',
                        rules=[(r'const char\* p = s;', 'const char* p = s_str;', None), (r'_xml << ("(?:[^"\\]|\\.)*");', r'OUT_STR(\1);', None), (r'_xml << c;', 'OUT_CH(c);', None),
-                              (r'_xml << s;', 'OUT_STR(s_str);', None), (r'\bs\.length\(\)', '(int)strlen(s_str)', None)])
+                              (r'_xml << s;', 'OUT_STR(s_str);', None), (r'\bs\.length\(\)', '(int)strlen(s_str)', None), (r"\bs\.contains\(('(?:\\.|[^'\\])')\)", r'(strchr(s_str, \1) != 0)', None)])
 escape_lemma = Unit(
     'xml_escape_roundtrip', 'C07',
     cuts=[c for c in xml_cuts() if c.name != 'step'] + [step_cut(), ESC_BODY()],
